@@ -52,7 +52,7 @@ m = {
     ],
     "checks": checks,
     "not_applicable": [{"property_id": pid, "reason": na_reasons.get(pid, "check not built yet in this session (planned: generated-input check per DESIGN.md §4 %s); not claimed until it runs clean on the unchanged tree" % pid)} for pid in allids if pid not in props],
-    "notes": "Every check is `./check <ID>`; configuration per property in props/<ID>.json; known findings in known_findings.jsonl; design and catch matrix in DESIGN.md.",
+    "notes": "Every check is `./check <ID>`; configuration per property in props/<ID>.json; known findings in known_findings.txt (known:/fixed: lines); design and catch matrix in DESIGN.md. Hooks: all yield points were added by the one hooks commit; two later fix: commits (025501a mux, f4db8f8 datachannel) rewrote the function a yield line sat in and carried that line along (guarded by the same build tag, no-op with the tag off).",
 }
 json.dump(m, open(os.path.join(V, "MANIFEST.json"), "w"), indent=1)
 print("claimed", len(checks), "not_applicable", len(m["not_applicable"]))
